@@ -37,6 +37,7 @@ fn ids_field(ids: &[usize]) -> String { if ids.is_empty() { s("~") } else { ids.
 fn parse_ids(x: &str) -> Vec<usize> { if x == "~" { vec![] } else { x.chars().map(|c| c.to_digit(16).unwrap() as usize).collect() } }
 
 pub fn run(key: &str, a: &[String], out: &mut Out) {
+    out.begin(key, a);
     match key {
         // one string => ok <sexp> | err | panic
         "C14.tok" | "C14.chr" | "C14.rnd" => {
